@@ -24,7 +24,7 @@ type c09Params struct {
 	Kind    int   `json:"kind"`     // raise kind
 	Site    int   `json:"site"`     // raise site
 	Handler []int `json:"handlers"` // per level 0..Depth: 0 none 1 matching 2 non-matching 3 both
-	Body    int   `json:"body"`     // handler body: 0 no 输出, 1 输出 v, 2 raises again
+	Body    int   `json:"body"`     // handler body: 0 no 输出, 1 输出 v, 2 raises again, 3 no 输出 and a valued last expression
 	Obj     bool  `json:"obj"`      // level 1 is a method of an object
 	Mod     bool  `json:"module"`   // innermost level lives in an imported module
 }
@@ -107,6 +107,9 @@ func c09Handlers(level int, p c09Params) []zn.Catch {
 			b = append(b, zn.Return{Val: c09N(1000 + level)})
 		case 2:
 			b = append(b, zn.Throw{Class: "异常", Args: []zn.Expr{c09S("again")}})
+		case 3:
+			// no 输出, but the last statement is an expression with a value of its own
+			b = append(b, zn.ExprStmt{E: zn.Group{E: zn.Bin{Op: "+", L: c09N(2000), R: c09N(level)}}})
 		}
 		return b
 	}
@@ -315,11 +318,14 @@ func c09Check(p c09Params) *mc.Failure {
 }
 
 // enumerate the product space; returns total count and an unranker
+// handler bodies: 0 no 输出 (ends with 显示), 1 输出 v, 2 raises again, 3 no 输出 but ends with a valued expression
+const c09NBodies = 4
+
 func c09Space(maxDepth int) (int64, func(k int64) c09Params) {
 	type dim struct{ depth int }
 	var sizes []int64
 	for d := 0; d <= maxDepth; d++ {
-		n := int64(len(c09Kinds) * len(c09Sites) * 3) // kind site body
+		n := int64(len(c09Kinds) * len(c09Sites) * c09NBodies) // kind site body
 		n *= pow64(4, d+1)                             // handlers per level
 		if d >= 1 {
 			n *= 4 // obj x mod
@@ -341,8 +347,8 @@ func c09Space(maxDepth int) (int64, func(k int64) c09Params) {
 		k /= int64(len(c09Kinds))
 		p.Site = int(k % int64(len(c09Sites)))
 		k /= int64(len(c09Sites))
-		p.Body = int(k % 3)
-		k /= 3
+		p.Body = int(k % c09NBodies)
+		k /= c09NBodies
 		for l := 0; l <= d; l++ {
 			p.Handler = append(p.Handler, int(k%4))
 			k /= 4
@@ -360,7 +366,7 @@ func init() {
 	mc.Register(&mc.Check{
 		ID:    "C09",
 		Level: "exploration",
-		Rule: "E1 exhaustive over the product: raise kind {抛出异常, 抛出 custom type, failing built-in (取样 out of range), failing library call (解析JSON), 1 / 0, index out of range, undefined name} x raise site {statement, in 如果, in 每当, in 遍历 over a list, in 遍历 over a dictionary, in a constructor, inside a handler} x call depth 0..D x handler placement per level {none, matching, non-matching, non-matching+matching} x handler body {no 输出, 输出 v, raises again} x level 1 plain method / method of an object x innermost level in the main file / in an imported module; every program runs follow-up probes after the handled call: caller locals, caller's 其, a callee local that must be gone (guarded read), a second call of the same chain, final result; on in-memory runs also the VM's call depth and scope depth. Oracle: reference interpreter. Distinct by construction; non-trivial = at least one handler present.",
+		Rule: "E1 exhaustive over the product: raise kind {抛出异常, 抛出 custom type, failing built-in (取样 out of range), failing library call (解析JSON), 1 / 0, index out of range, undefined name} x raise site {statement, in 如果, in 每当, in 遍历 over a list, in 遍历 over a dictionary, in a constructor, inside a handler} x call depth 0..D x handler placement per level {none, matching, non-matching, non-matching+matching} x handler body {no 输出, 输出 v, raises again, no 输出 but a valued expression as last statement} x level 1 plain method / method of an object x innermost level in the main file / in an imported module; every program runs follow-up probes after the handled call: caller locals, caller's 其, a callee local that must be gone (guarded read), a second call of the same chain, final result; on in-memory runs also the VM's call depth and scope depth. Oracle: reference interpreter. Distinct by construction; non-trivial = at least one handler present.",
 		Assumptions: []string{
 			"reference semantics from manual ch.4: runtime faults and failing built-ins are exceptions of class 异常; handler value is its 输出 or 空",
 			"the message text of faults / built-in failures is not compared (其内容 is displayed only for 抛出 with a known message)",
